@@ -145,6 +145,12 @@ impl<A: Afi> RangeSet<A> {
     { unimplemented!() }
     #[verifier::external_body]
     pub fn len(&self) -> (r: usize) ensures r == self.set@.len() { unimplemented!() }
+    #[verifier::external_body]
+    pub fn is_superset(&self, other: &Self) -> (r: bool) ensures r == other.set@.subset_of(self.set@) { unimplemented!() }
+    #[verifier::external_body]
+    pub fn is_subset(&self, other: &Self) -> (r: bool) ensures r == self.set@.subset_of(other.set@) { unimplemented!() }
+    #[verifier::external_body]
+    pub fn is_empty(&self) -> (r: bool) ensures r == is_empty_set(self.set@) { unimplemented!() }
 }
 impl<A: Afi> Ranges<A> {
     pub open spec fn view_set(&self) -> Set<u64> { self.inner.set@ }
@@ -252,7 +258,7 @@ pub proof fn lemma_term_converges(a: ip::concrete::Afi, old: Option<Set<u64>>, n
         let post = apply_term_edit(fetched_term(a, old), a, term_edit(old, new));
         &&& post == (if is_empty_set(new) { None::<TermSt> } else { Some(TermSt { family: Some(a), ranges: new, accept: true }) })   // OBL:C01.term.converges
         &&& term_readable(a, post)                                                                                                   // OBL:C01.term.readable
-        &&& (post matches Some(t) ==> (t.accept ==> t.family == Some(a) && !is_empty_set(t.ranges) && t.ranges.subset_of(new)))      // OBL:C02.term.no_fail_open
+        &&& (post matches Some(t) ==> (t.accept ==> t.family == Some(a) && !is_empty_set(t.ranges) && t.ranges.subset_of(new)))      // OBL:C02+C01.term.no_fail_open
         &&& (old == Some(new) ==> post == fetched_term(a, old))                                                                      // OBL:C01.term.idempotent
     }),
 {
@@ -294,29 +300,29 @@ impl<'a, A: Afi> Differences<'a, A> {
             -> (r: Result<(), WriteError>)
             requires writer.nodes@ == Seq::<Node>::empty(),
             ensures r is Ok ==> final(writer).nodes@ == term_children(A::spec_afi(),
-                if is_empty_set(self.new.inner.set@) { None } else { Some((dels_of(old_set(*self), self.new.inner.set@), adds_of(old_set(*self), self.new.inner.set@))) })   // OBL:C02.term.children
+                if is_empty_set(self.new.inner.set@) { None } else { Some((dels_of(old_set(*self), self.new.inner.set@), adds_of(old_set(*self), self.new.inner.set@))) })   // OBL:C02+C01.term.children
 //@closure 2
                     -> (r: Result<(), WriteError>)
                     requires writer.nodes@ == Seq::<Node>::empty(),
-                    ensures r is Ok ==> final(writer).nodes@ == from_children(A::spec_afi(), dels_of(old_set(*self), self.new.inner.set@), adds_of(old_set(*self), self.new.inner.set@))   // OBL:C02.term.from_children
+                    ensures r is Ok ==> final(writer).nodes@ == from_children(A::spec_afi(), dels_of(old_set(*self), self.new.inner.set@), adds_of(old_set(*self), self.new.inner.set@))   // OBL:C02+C01.term.from_children
 //@loop 1
                             invariant
                                 self.old is None, it__0.wf(), it__0.elems@ == order_of(self.new.inner.set@),
-                                writer.nodes@ == append_rfs(family_base(A::spec_afi()), it__0.done@, false),     // OBL:C02.term.adds_only_new
+                                writer.nodes@ == append_rfs(family_base(A::spec_afi()), it__0.done@, false),     // OBL:C02+C01.term.adds_only_new
                             ensures
                                 writer.nodes@ == append_rfs(family_base(A::spec_afi()), order_of(self.new.inner.set@), false),
                             decreases it__0.elems@.len() - it__0.done@.len(),
 //@loop 2
                             invariant
                                 self.old matches Some(o) && it__1.elems@ == order_of_diff(o.inner.set@, self.new.inner.set@), it__1.wf(),
-                                writer.nodes@ == append_rfs(family_base(A::spec_afi()), it__1.done@, true),      // OBL:C02.term.deletes_old_minus_new
+                                writer.nodes@ == append_rfs(family_base(A::spec_afi()), it__1.done@, true),      // OBL:C02+C01.term.deletes_old_minus_new
                             ensures
                                 writer.nodes@ == append_rfs(family_base(A::spec_afi()), dels_of(old_set(*self), self.new.inner.set@), true),
                             decreases it__1.elems@.len() - it__1.done@.len(),
 //@loop 3
                             invariant
                                 self.old matches Some(o) && it__2.elems@ == order_of_diff(self.new.inner.set@, o.inner.set@), it__2.wf(),
-                                writer.nodes@ == append_rfs(append_rfs(family_base(A::spec_afi()), dels_of(old_set(*self), self.new.inner.set@), true), it__2.done@, false),  // OBL:C02.term.adds_new_minus_old
+                                writer.nodes@ == append_rfs(append_rfs(family_base(A::spec_afi()), dels_of(old_set(*self), self.new.inner.set@), true), it__2.done@, false),  // OBL:C02+C01.term.adds_new_minus_old
                             ensures
                                 writer.nodes@ == from_children(A::spec_afi(), dels_of(old_set(*self), self.new.inner.set@), adds_of(old_set(*self), self.new.inner.set@)),
                             decreases it__2.elems@.len() - it__2.done@.len(),
